@@ -218,3 +218,135 @@ def _float(eng, st, args, kwargs, node):
 		yield st, v
 	else:
 		raise Unsupported(f'float({v!r})')
+
+
+# ---- isinstance for the modelled representations --------------------------------------------------
+KIND_OF_TYPE = {
+	'builtins.bytes': ('bytes',), 'builtins.bytearray': ('bytearray',), 'builtins.str': ('str',),
+	'Bio.Seq.Seq': ('Seq',), 'builtins.int': ('int',), 'numpy.integer': ('npint',), 'builtins.slice': ('slice',),
+	'numpy.ndarray': ('ndarray',), 'builtins.list': ('list',), 'builtins.tuple': ('tuple',), 'builtins.dict': ('dict',),
+}
+
+
+def value_kind(st, v):
+	if isinstance(v, Ref):
+		c = st.heap[v.addr]
+		if isinstance(c, Record):
+			return ('record', c.cls)
+		return (v.kind,)
+	if isinstance(v, SArr):
+		return (v.kind,)
+	if isinstance(v, bool) or isinstance(v, SBool):
+		return ('bool',)
+	if isinstance(v, int):
+		return ('int',)
+	if isinstance(v, SInt):
+		return ('npint',) if getattr(v, 'npint', False) else ('int',)
+	if isinstance(v, (str, SStr)):
+		return ('str',)
+	if isinstance(v, bytes):
+		return ('bytes',)
+	if isinstance(v, SSlice):
+		return ('slice',)
+	if isinstance(v, tuple):
+		return ('tuple',)
+	if isinstance(v, SObj):
+		return ('obj', v.T.name)
+	if v is None:
+		return ('none',)
+	if isinstance(v, (float, SReal)):
+		return ('float',)
+	return ('unknown', type(v).__name__)
+
+
+@lib('__isinstance__')
+def _isinst(eng, st, v, T):
+	vk = value_kind(st, v)
+	if vk[0] == 'unknown':
+		return None
+	if isinstance(T, ExtRef):
+		ks = KIND_OF_TYPE.get(T.qualname)
+		if ks is None:
+			return None
+		if vk[0] == 'bool' and 'int' in ks:
+			return True
+		return vk[0] in ks
+	if isinstance(T, ClassRef):
+		h = eng.lib.get('__subclass__')
+		if vk[0] == 'record':
+			if h is not None:
+				return h(eng, vk[1], T.qualname)
+			return vk[1] == T.qualname
+		if vk[0] == 'obj':
+			q = eng.lib.get('class:' + vk[1])
+			if h is not None and q is not None:
+				return h(eng, q, T.qualname)
+			return q == T.qualname
+		if h is not None:
+			r = h(eng, 'kind:' + vk[0], T.qualname)
+			if r is not None:
+				return r
+		return False
+	return None
+
+
+# ---- bytes / str methods ------------------------------------------------------------------------------
+from ..spec import uparr
+
+
+
+@lib('method:upper')
+def _upper(eng, st, obj, args, kwargs, node, site):
+	v = st.deref(obj)
+	if isinstance(v, (str, bytes)):
+		yield st, v.upper()
+	elif isinstance(v, SArr) and v.kind in ('bytes', 'bytearray'):
+		eng.axioms_used.add('uparr')
+		yield st, SArr(uparr(v.arr), v.length, v.off, None, 'bytes')
+	else:
+		raise Unsupported(f'upper() of {v!r}')
+
+
+@lib('method:lower')
+def _lower(eng, st, obj, args, kwargs, node, site):
+	v = st.deref(obj)
+	if isinstance(v, (str, bytes)):
+		yield st, v.lower()
+	else:
+		raise Unsupported(f'lower() of {v!r}')
+
+
+@lib('method:encode')
+def _encode(eng, st, obj, args, kwargs, node, site):
+	v = st.deref(obj)
+	if isinstance(v, str):
+		yield st, v.encode(*args)
+		return
+	if isinstance(v, SArr) and v.kind == 'str' and args == ['ascii']:
+		j = z3.Int(fresh_name('j'))
+		nonascii = z3.Exists([j], z3.And(j >= 0, j < v.length, v.at(j) > 127))
+		for s2, bad in eng.branch(st, nonascii):
+			if bad:
+				yield s2, Raised('UnicodeEncodeError')
+			else:
+				yield s2, SArr(v.arr, v.length, v.off, None, 'bytes')
+		return
+	raise Unsupported(f'encode() of {v!r}')
+
+
+@lib('method:decode')
+def _decode(eng, st, obj, args, kwargs, node, site):
+	v = st.deref(obj)
+	if isinstance(v, bytes):
+		yield st, v.decode(*args)
+		return
+	if isinstance(v, SArr) and v.kind in ('bytes',) and args == ['ascii']:
+		j = z3.Int(fresh_name('j'))
+		nonascii = z3.Exists([j], z3.And(j >= 0, j < v.length, v.at(j) > 127))
+		for s2, bad in eng.branch(st, nonascii):
+			if bad:
+				yield s2, Raised('UnicodeDecodeError')
+			else:
+				yield s2, SArr(v.arr, v.length, v.off, None, 'str')
+		return
+	raise Unsupported(f'decode() of {v!r}')
